@@ -7,7 +7,7 @@ OWNERS = {
     'C02': ['c02'],
     'C03': ['c03'],
     'C04': ['c04'],
-    'C05': ['coherence', '*.incoherent', 'accessor', 'reader', 'summary.sum',
+    'C05': ['coherence', '*.incoherent', '*.refused_changed', 'accessor', 'reader', 'summary.sum',
             'summary.nnz',
             'summary.density', 'read.data', 'read.value', 'read.getslice',
             'read.iter', 'read.iter_data', 'read.pairwise', 'read.nonzero',
@@ -15,7 +15,7 @@ OWNERS = {
     'C06': ['reorder', 'copy.result', 'rename', 'sort_order.unknown_id',
             'perturb.sortinv', 'perturb.tt', 'perturb.copy'],
     'C07': ['bystander', 'noninplace', 'inplace', 'newtable',
-            'refused.changed', 'perturb.copy'],
+            '*.refused_changed', 'perturb.copy'],
     'C08': ['filter', 'remove_empty', 'head', 'perturb.filterall'],
     'C09': ['merge'],
     'C10': ['concat'],
